@@ -348,6 +348,8 @@ class _AbsVec(object):
     def sym_getattr(self, interp, name):
         if name == 'max':
             from .invloop import maxabs
+            if hasattr(self.v, 'sym_maxabs'):
+                return lambda: self.v.sym_maxabs(interp)
             return lambda: maxabs(self.v)
         raise CheckerError('abs(vector).%s needs a contract' % name)
 
